@@ -296,7 +296,13 @@ def segmentations(stream_len, frames, tier, light):
         return out
     if n <= 600:
         out.append(list(range(1, n)))
-    pts = sorted(p for p in frame_bounds(frames, 0) if 0 < p < n)
+    bframes = frames
+    if len(frames) > 12:
+        # many fragments: the boundaries of the first, two middle and the last frames (every frame
+        # boundary is still hit by the fixed-size chunkings below)
+        mid = len(frames) // 2
+        bframes = frames[:4] + frames[mid:mid + 2] + frames[-4:]
+    pts = sorted(p for p in frame_bounds(bframes, 0) if 0 < p < n)
     if tier != "thorough" and not light:
         # quick: +-4 octets around every frame start / payload start / frame end
         pts = [p for p in pts if any(abs(p - f.start) <= 4 or abs(p - f.end) <= 4 or
